@@ -15,9 +15,37 @@ func (fr *frame) runDefers(x *ssa.RunDefers) {
 }
 
 func (fr *frame) goStmt(x *ssa.Go) {
-	// goroutines are not modelled: everything the goroutine may touch is havoc'd
-	fr.havocAll("go statement (goroutines are not modelled)")
-	fr.havocCells()
+	// Goroutines are not modelled. Interference of other threads with shared state is outside
+	// the sequential model everywhere; what a spawned goroutine communicates back through
+	// variables it captures by reference is havoc'd here (the spawning function may read them
+	// later, e.g. after wg.Wait()).
+	u := fr.u
+	u.note("%s: go statement: the variables captured by the goroutine are havoc'd, its other effects are concurrent effects (not modelled)", fr.fn.Name())
+	fv := fr.val(x.Call.Value)
+	for i, b := range fv.binds {
+		if fv.fn == nil || i >= len(fv.fn.FreeVars) {
+			break
+		}
+		pt, ok := fv.fn.FreeVars[i].Type().Underlying().(*types.Pointer)
+		if !ok {
+			continue
+		}
+		p := fr.asPtr(b, fv.fn.FreeVars[i].Type())
+		c := u.declConst(fr.tag("gohv"), u.sortOf(pt.Elem()))
+		if ti := u.typeInvariant(c, pt.Elem(), 0); ti != "" {
+			u.assert(ti)
+		}
+		if isRefLike(pt.Elem()) {
+			u.assert("(>= " + refOf(c, pt.Elem()) + " 0)")
+		}
+		u.storePtr(p, fr.st, c)
+		if sl, ok := pt.Elem().Underlying().(*types.Slice); ok {
+			k := u.keyM(sl.Elem())
+			hc := u.declConst(fr.tag("gohv_"+k), u.keySort[k])
+			u.heapTyping(k, hc)
+			fr.st.set(k, hc)
+		}
+	}
 }
 
 func (fr *frame) chanOp(ins ssa.Instruction) {
